@@ -9,7 +9,7 @@
 From HyV Require Import Compiler.Syntax.
 
 (* temp_variables, at name level: the temporary and whether the Load occurrence in the
-   expression context is among the renamable objects (false only for try's result) *)
+   expression context is among the renamable objects (it is for every modelled form) *)
 Record result := R { rs : list pstmt; re : option pexpr; rt : list (ident * bool) }.
 
 Definition rempty : result := R [] None [].
@@ -219,7 +219,11 @@ Fixpoint compile (e : hexpr) (c : cst) {struct e} : result * cst :=
                end) handlers (bump c1) in
           let '(orel, c3) :=
             match handlers, orelse with
-            | _ :: _, Some o => let '(ro, c3) := branch o rempty None c2 in (rs ro ++ [SAssign rv (force ro)], c3)
+            | _ :: _, Some o =>
+                match o with
+                | [] => ([], c2)                 (* `if not orelse`: an empty (else) counts as absent *)
+                | _ => let '(ro, c3) := branch o rempty None c2 in (rs ro ++ [SAssign rv (force ro)], c3)
+                end
             | _, _ => ([], c2)
             end in
           let '(fin, c4) :=
@@ -232,7 +236,7 @@ Fixpoint compile (e : hexpr) (c : cst) {struct e} : result * cst :=
                      | [] => rs rb ++ [SAssign rv (force rb)]
                      | _ => rs (radd rb (expr_as_stmt rb))
                      end) in
-          (R [STry body_stmts hs orel fin] (Some (PName rv)) [(rv, false)], c4)
+          (R [STry body_stmts hs orel fin] (Some (PName rv)) [(rv, true)], c4)
       end
   end.
 
